@@ -160,6 +160,62 @@ def int_state_obligation(chk):
                        goal, timeout_s=300, replay=replay, signature="mh_step:int-entry")]
 
 
+class CountingInterface:
+    """a model interface whose update_state is NOT idempotent (it counts its calls in the state): 'returns the input state on rejection'
+    cannot be faked by re-applying the current position"""
+
+    def extract_position(self, keys, ms):
+        return {k: ms[k] for k in keys}
+
+    def update_state(self, pos, ms):
+        return ms | pos | {"n_updates": ms["n_updates"] + 1.0}
+
+    def log_prob(self, ms):
+        return ms["lp"]
+
+
+def abstract_interface_obligation(chk):
+    """mh_step against an ARBITRARY update_state (a verif_stub): on rejection the returned state is the input state itself, on acceptance it is
+    exactly what update_state(proposal, input) returned -- whatever that function does"""
+    from .. import stubs
+    from liesel.goose.mh import mh_step
+    real_iface = CountingInterface()
+
+    class AbsIface(CountingInterface):
+        def update_state(self, pos, ms):
+            return stubs.stub("update_state", (pos, ms), ms, real=lambda p_, m_: real_iface.update_state(p_, m_))
+
+    def f(key, cur, prop, x, xp, n0):
+        info, st = mh_step(key, AbsIface(), {"lp": prop, "x": xp}, {"lp": cur, "x": x, "n_updates": n0}, 0.0)
+        return dict(moved=info.position_moved, lp=st["lp"], x=st["x"], n=st["n_updates"])
+    names = ("cur", "prop", "x", "xp", "n0")
+    R = {n: z3.Real("abs_" + n) for n in names}
+    sc = lambda v: np.array(v, dtype=object).reshape(())
+    key = jax.random.PRNGKey(2)
+    enc = chk.note_enc(Enc("mh_step with an abstract update_state", f, (key, 1.0, 2.0, 0.1, 0.2, 41.0), (root_key("k"),) + tuple(sc(R[n]) for n in names), key_roots={"k": key}))
+
+    def goal(V):
+        if V.ncalls("update_state") != 1:
+            return [], z3.BoolVal(False)
+        a_, o_ = V.call("update_state")
+        new = [cells(t)[0] for t in o_]            # leaves of the stub's output state in tree order: lp, n_updates, x
+        mv = cells(V.out["moved"])[0]
+        out = dict(lp=cells(V.out["lp"])[0], n=cells(V.out["n"])[0], x=cells(V.out["x"])[0])
+        return [], z3.And(z3.Implies(z3.Not(mv), z3.And(out["lp"] == R["cur"], out["x"] == R["x"], out["n"] == R["n0"])),
+                          z3.Implies(mv, z3.And(out["lp"] == new[0], out["n"] == new[1], out["x"] == new[2])))
+
+    def replay(ob, model, rng):
+        import jax.numpy as jnp_
+        st = {"lp": jnp_.float32(-1.0), "x": jnp_.float32(0.1), "n_updates": jnp_.float32(41.0)}
+        info, out = mh_step(jax.random.PRNGKey(0), real_iface, {"lp": jnp_.float32(-jnp_.inf), "x": jnp_.float32(0.2)}, st, 0.0)      # probability zero: rejected
+        same = float(out["n_updates"]) == 41.0 and float(out["lp"]) == -1.0 and float(out["x"]) == float(np.float32(0.1))
+        return dict(reproduced=not same, inputs=dict(current=dict(lp=-1.0, x=0.1, n_updates=41.0), proposal=dict(lp="-inf", x=0.2)),
+                    observed=dict(moved=bool(info.position_moved), returned={k: float(v) for k, v in out.items()}),
+                    note="a rejected step returns a state that is not the input state (update_state was applied again)" if not same else "rejected step returns the input state")
+    return [Obligation("for an arbitrary (non-idempotent) update_state: a rejected step returns the input state itself, an accepted step exactly the state update_state(proposal, input) returned",
+                       [enc], goal, signature="mh_step:abstract-update", replay=replay, timeout_s=120)]
+
+
 def main():
     chk = Check("C05")
     F = z3.Float32()
@@ -248,6 +304,7 @@ def main():
             chk.violation("mh_step:concrete-point", "property fails at a translator-validation point", dict(reproduced=True, observed=obs, note="; ".join(problems)))
     chk.validated_points = pts
     obs_ += int_state_obligation(chk)
+    obs_ += abstract_interface_obligation(chk)
     chk.run(obs_)
     chk.bounds += ["all float32 values of current/proposed log-density, correction and one carried state scalar (incl. +-inf, NaN, -0)", "all 2^32 values of an int32 state entry outside the proposal",
                    "all 2^32 values of the random word behind jax.random.uniform", "no other bound: mh_step has no loops"]
